@@ -213,44 +213,7 @@ func checkC09(c *Ctx) {
 				mergeLoops = append(mergeLoops, l)
 			}
 		}
-		// R09n: two levels merged into one map replace each other only if the key ignores letter case, as header names do
-		{
-			folded := func(body ast.Node, e ast.Expr, depth int) bool {
-				return caseFolded(ep.Info, body, e, depth, func(call *ast.CallExpr) (*ast.FuncDecl, *types.Info) {
-					if cal := ep.CalleeOf(call); cal != nil {
-						return ep.Funcs[ep.RecName(cal)], ep.Info
-					}
-					return nil, nil
-				})
-			}
-			if len(mergeLoops) >= 2 {
-				for _, ml := range mergeLoops {
-					ml := ml
-					ast.Inspect(ml.Body, func(n ast.Node) bool {
-						as, ok := n.(*ast.AssignStmt)
-						if !ok {
-							return true
-						}
-						for _, lh := range as.Lhs {
-							ix, ok := lh.(*ast.IndexExpr)
-							if !ok {
-								continue
-							}
-							if tv, ok := ep.Info.Types[ix.X]; !ok || tv.Type == nil {
-								continue
-							} else if _, isMap := tv.Type.Underlying().(*types.Map); !isMap {
-								continue
-							}
-							r.Check(folded(ml.Body, ix.Index, 0), "R09n", "validateHeaders: merge over "+ep.Text(ml.X)+" keys "+ep.Text(ix.X)+" by a case-folded name", ep.GenPos(as.Pos()),
-								"the merge stores "+ep.Text(lh)+" under a key that keeps the declared letter case: a method-level declaration spelled in another case does not replace the service-level one (header names are case-insensitive, r.Header.Get reads one value for both), so both are enforced against one header value and a request valid for the effective declaration is rejected")
-						}
-						return true
-					})
-				}
-			} else {
-				r.Unres("R09n", "validateHeaders merge loops", ep.GenPos(vh.Pos()), fmt.Sprintf("expected the service-level and the method-level merge loop, found %d", len(mergeLoops)))
-			}
-		}
+		c09MergeKeysFolded(c, ep, "R09n")
 		specName := "headerSpec"
 		if vloop != nil {
 			if tv, ok := ep.Info.Types[vloop.X]; ok {
@@ -1222,4 +1185,85 @@ func outerAddrStoredInLoop(c *Ctx, rid string, rels ...string) {
 		}
 	}
 	r.OKd(rid, "addresses of locals stored inside loops inspected", "", map[string]any{"stored_addresses_of_locals_in_loops": nAddr, "addresses_of_fields_seen": nOther, "shared_across_iterations": nBad})
+}
+
+// c09MergeKeysFolded — R09n / R10m. In the emitted validateHeaders, the loops that merge the service-level and the
+// method-level headers into one map: every index into that map — the store and the "already seen" lookup that decides
+// whether the name is appended to the order list — uses a case-folded name (through locals and helper functions).
+func c09MergeKeysFolded(c *Ctx, ep *EmittedPkg, rid string) {
+	r := c.R
+	vh := ep.Funcs["validateHeaders"]
+	if vh == nil {
+		r.Unres(rid, "validateHeaders", "", "emitted function not found")
+		return
+	}
+	isStringMap := func(e ast.Expr) bool {
+		tv, ok := ep.Info.Types[e]
+		if !ok || tv.Type == nil {
+			return false
+		}
+		mt, ok := tv.Type.Underlying().(*types.Map)
+		return ok && isStringType(mt.Key())
+	}
+	var mergeLoops []*ast.RangeStmt
+	ast.Inspect(vh.Body, func(n ast.Node) bool {
+		rs, ok := n.(*ast.RangeStmt)
+		if !ok {
+			return true
+		}
+		stores := false
+		ast.Inspect(rs.Body, func(m ast.Node) bool {
+			if as, ok := m.(*ast.AssignStmt); ok {
+				for _, lh := range as.Lhs {
+					if ix, ok := lh.(*ast.IndexExpr); ok && isStringMap(ix.X) {
+						stores = true
+					}
+				}
+			}
+			return true
+		})
+		if stores {
+			mergeLoops = append(mergeLoops, rs)
+		}
+		return true
+	})
+	if len(mergeLoops) < 2 {
+		r.Unres(rid, "validateHeaders merge loops", ep.GenPos(vh.Pos()), fmt.Sprintf("expected the service-level and the method-level merge loop, found %d", len(mergeLoops)))
+		return
+	}
+	helper := func(call *ast.CallExpr) (*ast.FuncDecl, *types.Info) {
+		if cal := ep.CalleeOf(call); cal != nil {
+			return ep.Funcs[ep.RecName(cal)], ep.Info
+		}
+		return nil, nil
+	}
+	for _, ml := range mergeLoops {
+		ml := ml
+		site := 0
+		stores := map[*ast.IndexExpr]bool{}
+		ast.Inspect(ml.Body, func(n ast.Node) bool {
+			if as, ok := n.(*ast.AssignStmt); ok {
+				for _, lh := range as.Lhs {
+					if ix, ok := lh.(*ast.IndexExpr); ok {
+						stores[ix] = true
+					}
+				}
+			}
+			return true
+		})
+		ast.Inspect(ml.Body, func(n ast.Node) bool {
+			ix, ok := n.(*ast.IndexExpr)
+			if !ok || !isStringMap(ix.X) {
+				return true
+			}
+			site++
+			role := "lookup"
+			if stores[ix] {
+				role = "store"
+			}
+			r.Check(caseFolded(ep.Info, ml.Body, ix.Index, 0, helper), rid, fmt.Sprintf("validateHeaders: merge over %s: %s %d into %s uses a case-folded name", ep.Text(ml.X), role, site, ep.Text(ix.X)), ep.GenPos(ix.Pos()),
+				"the merge indexes "+ep.Text(ix)+" by a name that keeps the declared letter case: a method-level declaration spelled in another case does not replace the service-level one, and a lookup by the raw name never finds the folded key — the header is listed (and its violation reported) twice")
+			return true
+		})
+	}
 }
